@@ -147,6 +147,11 @@ enum Outcome {
     Rejected,
 }
 
+/// the C14 predicate on one text (used by the libFuzzer target as well)
+pub fn check_text(text: &str) -> Result<(), Failure> {
+    check_one(text).map(|_| ())
+}
+
 fn check_one(text: &str) -> Result<Outcome, Failure> {
     match catch(|| sqlgrep::parsing::parse(text)) {
         Err(p) => Err(Failure::new(format!("panic: {}", panic_class(&p)), format!("parse panicked on {:?}: {}", text, p))),
